@@ -26,17 +26,51 @@ def Mul(*cs): return ['prod', False] + list(cs)
 
 # ------------------------------------------------------------------------------------------ Fortran text
 def unit_src(u, uses=()):
-    """a module <name>_mod containing the subroutine (explicit interfaces: the sequential variant adds a keyword actual)"""
+    """a module <name>_mod containing the subroutine (explicit interfaces: the sequential variant adds a keyword actual).
+    u['dspell'] / u['uspell']: spelling of identifiers in the declaration part / at the use sites (Fortran is case-insensitive;
+    Loki keeps the spelling of each occurrence)"""
+    ds, us = u.get('dspell', {}), u.get('uspell', {})
+    D = lambda x: ds.get(x, x)
     L = ['module %s_mod' % u['name'], '  implicit none', 'contains',
-         'subroutine %s(%s)' % (u['name'], ', '.join(u['args']))]
+         'subroutine %s(%s)' % (u['name'], ', '.join(D(a) for a in u['args']))]
     for c in uses: L.append('  use %s_mod, only: %s' % (c, c))
     L.append('  implicit none')
     for name, intent, dims in u['decls']:
         it = ', intent(%s)' % intent if intent else ''
-        L.append('  integer%s :: %s%s' % (it, name, '(%s)' % ', '.join(dims) if dims else ''))
-    L += MF.fstmts(u['body'])
+        L.append('  integer%s :: %s%s' % (it, D(name), '(%s)' % ', '.join(D(d) for d in dims) if dims else ''))
+    body = MF.fstmts(u['body'])
+    if us:
+        import re
+        rx = re.compile(r'\b(%s)\b' % '|'.join(re.escape(k) for k in sorted(us, key=len, reverse=True)))
+        body = [rx.sub(lambda m: us[m.group(1)], l) for l in body]
+    L += body
     L += ['end subroutine %s' % u['name'], 'end module %s_mod' % u['name']]
     return '\n'.join(L) + '\n'
+
+def _style(name, k):
+    if k == 0: return name
+    if k == 1: return name.upper()
+    if k == 2: return name[0].upper() + name[1:]
+    return ''.join(ch.upper() if i % 2 else ch for i, ch in enumerate(name))
+
+def add_spelling(tree):
+    """mixed / upper case spellings for part of the trees (drawn from a generator derived from the tree, so that the
+    tree shapes of a seed do not depend on it): declared spelling and use-site spelling of every identifier independently;
+    temporaries are mostly declared with upper-case letters (IFS style: ZTMP)"""
+    import random
+    r = random.Random(json.dumps([tree['dims'], tree['fill'], tree['units'][1]['body']])[:4000])
+    if r.random() < 0.45: return tree
+    for u in tree['units']:
+        ds, us = {}, {}
+        for name, intent, dims in u['decls']:
+            if name == 'end': continue                    # `end do` / `end if` in the printed text
+            temp = dims and intent is None
+            k = r.choice([1, 1, 2, 3, 0] if temp else [0, 0, 1, 2, 3])
+            ds[name] = _style(name, k)
+            us[name] = ds[name] if r.random() < 0.5 else _style(name, r.choice([0, 0, 1, 2, 3]))
+        u['dspell'] = {k: v for k, v in ds.items() if v != k}
+        u['uspell'] = {k: v for k, v in us.items() if v != k}
+    return tree
 
 def callees(ss):
     out = []
@@ -155,7 +189,7 @@ class Gen:
         self.used = set()
         self.init2 = set()                                   # 2-D temporaries that are completely initialised
         self.calls_left = 0 if nested is None else rng.randint(1, 2)
-        self.force1 = None; self.t3 = False
+        self.force1 = None; self.t3 = False; self.t4 = False
         self.has_kl = opts.get('kl', False)
 
     # ---- expressions (in-mode): kctx = (var, lo_off_ok, hi_off_ok) of the enclosing vertical loop or None
@@ -322,6 +356,17 @@ class Gen:
                     # a temporary that lives in ONE vector section and is then passed down: must stay an array
                     self.t3 = True; self.force1 = 't3'; self.used.add('t3')
                     out.append(self.hloop_t3())
+                buf = None
+                if not self.t4 and r.random() < 0.6:
+                    # a temporary that BUFFERS a per-column value across the section split: stored before the separator,
+                    # consumed (observably) right after it, never passed down -> must not be demoted
+                    self.t4 = True; self.used.add('t4'); buf = self.arrs1[0] if self.arrs1 and r.random() < 0.5 else None
+                    out.append(['do', H_IDX, Vr(H_LO), Vr(H_HI), None,
+                                [['store', 't4', [Vr(H_IDX)], Add(self.ex(set(), None, 1), Mul(I(r.randint(1, 3)), Vr(H_IDX)))]]])
+                    tgt = (buf, [Vr(H_IDX)]) if buf else (self.arrs2[0], [Vr(H_IDX), r.choice([I(1), Vr(V_SIZE)])])
+                    self.used.add(tgt[0])
+                    buf = ['do', H_IDX, Vr(H_LO), Vr(H_HI), None,
+                           [['store', tgt[0], tgt[1], Add(['call', tgt[0]] + tgt[1], Rd('t4', Vr(H_IDX)))]]]
                 self.klarg = r.choice([I(1), Vr(V_SIZE), I(2)])
                 if form < 0.6 or not self.o.get('call_ctx', True):
                     c = self.call_stmt()
@@ -337,6 +382,7 @@ class Gen:
                     if c:
                         pre, _ = self.out_stmts(set(self.tdef), None, 1)
                         out.append(['if', ['cmp', '>', Vr(V_SIZE), I(r.choice([1, 2, 9]))], pre + [c], []])
+                if buf: out.append(buf)
                 # after a CALL the 1-D temporaries used before stay arrays only if they are used again; to keep reads defined
                 # we only rely on tdef (stored before, in every column of the range)
         return out
@@ -347,7 +393,7 @@ class Gen:
         decls = [[x, 'in', []] for x in args[:4 + (1 if self.has_kl else 0)]]
         decls += [[a, 'inout', [H_SIZE, V_SIZE]] for a in self.arrs2] + [[a, 'inout', [H_SIZE]] for a in self.arrs1]
         decls += [[p, 'in', [V_SIZE]] for p in self.ro1]
-        decls += [[t, None, [H_SIZE]] for t in self.t1 + (['t3'] if self.t3 else [])] + [[t, None, [H_SIZE, V_SIZE]] for t in self.t2]
+        decls += [[t, None, [H_SIZE]] for t in self.t1 + (['t3'] if self.t3 else []) + (['t4'] if self.t4 else [])] + [[t, None, [H_SIZE, V_SIZE]] for t in self.t2]
         decls += [[x, None, []] for x in [H_IDX, 'jk', 'jm', 'jn'] + self.ls + self.us]
         return {'name': self.name, 'args': args, 'decls': decls, 'body': body}
 
@@ -381,8 +427,8 @@ def gen_tree(rng, opts=None):
     units = [du, ku] + ([nu] if has_nested else [])
     nlon = rng.randint(3, 5)
     rg = rng.choice([[1, nlon], [1, nlon], [2, nlon - 1], [2, nlon], [1, nlon - 1], [3, 2]])
-    return {'units': units, 'dims': {'nlon': nlon, 'nz': rng.randint(3, 4), 'nb': rng.randint(1, 2)}, 'range': rg,
-            'fill': rng.randint(0, 8)}
+    return add_spelling({'units': units, 'dims': {'nlon': nlon, 'nz': rng.randint(3, 4), 'nb': rng.randint(1, 2)}, 'range': rg,
+                         'fill': rng.randint(0, 8)})
 
 # ------------------------------------------------------------------------------------------ trim_vector_sections
 def _devec(ss):
